@@ -24,7 +24,7 @@ PROPS = {
                 'ring-rich graphs; read: accepted strings whose graph builds; kinds: the text of every atom-kind family. The oracle re-reads what '
                 'was written and tests isomorphism. non-trivial = accepted, at least one atom. soak: three size families of 10^5 (thorough 10^6) atoms, '
                 'i.e. atom indices beyond 16 bits, through read -> build -> walk -> write -> read -> build with the isomorphism tested at that size',
-        'soak': {'quick': [('chain', 100000), ('comb', 100000), ('ringlist', 100000), ('straddle', 65542)],
+        'soak': {'quick': [('chain', 100000), ('comb', 100000), ('ringlist', 100000), ('straddle', 65542), ('chain', 65535), ('chain', 65536), ('chain', 65537), ('macrocycle', 65537)],
                  'thorough': [('chain', 1000000), ('comb', 1000000), ('ringlist', 1000000), ('macrocycle', 300000), ('straddle', 65542), ('straddle', 200000)]},
         'assumptions': ASSUME_COMMON,
     },
@@ -38,7 +38,7 @@ PROPS = {
                 'branches, re-used ring numbers, several digits per atom, explicit / elided / directional kinds on either end of a closure; atom: every '
                 'token family. Events and the built graph (or build error) are compared. non-trivial = not refused at position 0. soak: the built graph '
                 'compared with the independent interpreter at 10^5 (thorough 10^6) atoms (atom indices beyond 16 bits)',
-        'soak': {'quick': [('chain', 100000), ('comb', 100000), ('ringlist', 100000), ('straddle', 65542)],
+        'soak': {'quick': [('chain', 100000), ('comb', 100000), ('ringlist', 100000), ('straddle', 65542), ('chain', 65535), ('chain', 65536), ('chain', 65537), ('macrocycle', 65537)],
                  'thorough': [('chain', 1000000), ('comb', 1000000), ('ringlist', 1000000), ('macrocycle', 300000), ('straddle', 65542), ('straddle', 200000)]},
         'assumptions': ASSUME_COMMON,
     },
@@ -73,7 +73,7 @@ PROPS = {
         ],
         'rule': 'the S-graph and S-read sets; every well-formed input is additionally written in three fresh threads (fresh HashMap seeds) and '
                 'rewritten twice by the oracle. non-trivial = accepted. soak: the fixed point at 10^5 (thorough 10^6) atoms',
-        'soak': {'quick': [('chain', 100000), ('comb', 100000), ('ringlist', 100000), ('straddle', 65542)],
+        'soak': {'quick': [('chain', 100000), ('comb', 100000), ('ringlist', 100000), ('straddle', 65542), ('chain', 65535), ('chain', 65536), ('chain', 65537), ('macrocycle', 65537)],
                  'thorough': [('chain', 1000000), ('comb', 1000000), ('ringlist', 1000000), ('macrocycle', 300000), ('straddle', 65542), ('straddle', 200000)]},
         'assumptions': ASSUME_COMMON + ['hash-seed independence is a runtime fact: measured by repeated runs in fresh threads, not proved'],
     },
